@@ -154,7 +154,48 @@ def check(run):
                             oracle_fail.append((cfg, l, f"as<{name}>(\"{txt[:30]}\") = {e}", o))
             if f["is"] != "0000000000":
                 oracle_fail.append((cfg, l, "is<number>() false for a string", o))
-    run.cov["rule"] = ("stored numbers: integer/float/double within 2 of every power of two and type limit (values, halves, neighbours), special floats, random; "
+    # copyArray: document -> C arrays (1-d with explicit length, 2-d, char arrays), destination inside guard elements
+    ca_lines = []
+    def small_elem():
+        k = rnd.random()
+        if k < 0.5: return ("i", rnd.choice([0, 1, -1, 7, 255, 256, -129, 2 ** 31 - 1, 2 ** 31, -2 ** 31 - 1, 2 ** 63, rnd.randrange(-1000, 1000)]))
+        if k < 0.65: return ("D", struct.unpack(">Q", struct.pack(">d", rnd.choice([1.5, -2.75, 1e10, 3e9, -1e30, 255.9])))[0])
+        if k < 0.75: return ("s", rnd.choice([b"12", b"x", b"-7", b""]))
+        if k < 0.85: return rnd.choice([None, True, False])
+        return [("i", rnd.randrange(100)) for _ in range(rnd.randrange(0, 4))]
+    for _ in range(1500 if thorough else 300):
+        n = rnd.choice([0, 1, 2, 3, 4, 5, 8, 17])
+        src = [small_elem() for _ in range(n)] if rnd.random() < 0.9 else small_elem()
+        ca_lines.append("CA1 %s %d %s" % (rnd.choice(["i32", "u8", "i64"]), rnd.choice([0, 1, 2, 3, 4, 5, 8, 16]), dump(src)))
+    for _ in range(1000 if thorough else 200):
+        rows = []
+        for _ in range(rnd.choice([0, 1, 2, 3, 4, 5, 6])):
+            rows.append([("i", rnd.randrange(-5, 100)) for _ in range(rnd.choice([0, 1, 2, 3, 4, 5, 7]))] if rnd.random() < 0.85 else small_elem())
+        src = rows if rnd.random() < 0.95 else small_elem()
+        ca_lines.append("CA2 %s %s" % (rnd.choice(["3x2", "2x4", "1x1", "4x3"]), dump(src)))
+    for _ in range(600 if thorough else 150):
+        ln = rnd.choice([0, 1, 2, 3, 4, 5, 7, 8, 9, 15, 16, 17, 40])
+        sv = ("s", bytes(rnd.choice(b"abc\x00xyz") for _ in range(ln))) if rnd.random() < 0.9 else small_elem()
+        ca_lines.append("CAS %s %s" % (rnd.choice(["1", "2", "4", "8", "16"]), dump(sv)))
+    mism, mo, io = vlib.correspond(run, model, impl, ca_lines, cfg, "copyArray")
+    all_mism += [(cfg, m) for m in mism]
+    for l, o in zip(ca_lines, io):
+        if o == "<crash>":
+            continue
+        if "GUARD-OVERWRITTEN" in o:
+            oracle_fail.append((cfg, l, "copyArray writes nothing outside the destination it was given", o))
+            continue
+        f = l.split(" ")
+        if f[0] == "CA1":
+            # independent of the model: count = min(size, len); elements beyond the count keep their previous value (90)
+            got = [int(x) for x in o.split("[")[1].rstrip("]").split(",") if x != ""]
+            cnt = int(o.split(" ")[0])
+            if cnt > int(f[2]) or any(x != 90 for x in got[cnt:]) or len(got) != int(f[2]):
+                oracle_fail.append((cfg, l, "count <= len and elements beyond the count untouched", o))
+    run.cov["rule"] = ("copyArray(document -> T* with length / T[N1][N2] / char[N]) on arrays shorter, equal and longer than the destination, rows of uneven length, non-array "
+                       "sources and elements, strings around N with embedded NUL: destination placed between guard elements (none may change), result and count equal the "
+                       "model's (Convert.copy_array_1d / copy_array_2d / copy_string, proved never to write beyond the destination); "
+                       "stored numbers: integer/float/double within 2 of every power of two and type limit (values, halves, neighbours), special floats, random; "
                        "8 integral targets + float + double + is<T>; oracle: C13's rule on the exact rational value (Python Fraction), nearest representable for "
                        "floating targets, is<T> => as<U> agrees for wider U; numeric strings of up to 40000 digits as copied and as linked strings; "
                        "UBSan float-cast-overflow and ASan on; distinct = distinct case line")
